@@ -68,10 +68,11 @@ Lemma keys_add_h_fold_count ks : NoDup ks -> forall acc g', RP.closed_g acc ->
   (forall k, In k ks -> exists n, gfind k acc = Some n /\ RP.no_rs n) ->
   H.fold_res H.add_h_step ks acc = Ok g' ->
   exists hs, node_keys g' = node_keys acc ++ hs /\ (forall j, In j hs -> gfind j acc = None) /\
-             length hs = sum_nat (map (hcn acc) ks).
+             length hs = sum_nat (map (hcn acc) ks) /\
+             (forall j, In j hs -> forall k, In k (node_keys acc) -> k < j).
 Proof.
   induction ks as [|k ks IH]; intros Hnd acc g' Hcl Hks Hf.
-  - cbn in Hf. inversion Hf; subst. exists []. rewrite app_nil_r. repeat split. intros j [].
+  - cbn in Hf. inversion Hf; subst. exists []. rewrite app_nil_r. repeat split; intros j [].
   - cbn [H.fold_res] in Hf. destruct (H.add_h_step acc k) as [acc1|] eqn:S1; cbn [bind] in Hf; [|discriminate].
     inversion Hnd as [|? ? Hk Hnd']; subst.
     destruct (Hks k (or_introl eq_refl)) as (n & Gk & Rk).
@@ -84,8 +85,8 @@ Proof.
     assert (Hks' : forall k', In k' ks -> exists n', gfind k' acc1 = Some n' /\ RP.no_rs n').
     { intros k' Hin. destruct (Hks k' (or_intror Hin)) as (n' & G' & R'). exists n'. split; [|assumption].
       apply Same; [assumption|]. intro X. subst. contradiction. }
-    destruct (IH Hnd' acc1 g' Cl1 Hks' Hf) as (hs & Kg & Fr & Len).
-    exists (idxs ++ hs). split; [rewrite Kg, K1, app_assoc; reflexivity|]. split.
+    destruct (IH Hnd' acc1 g' Cl1 Hks' Hf) as (hs & Kg & Fr & Len & Ab).
+    exists (idxs ++ hs). split; [rewrite Kg, K1, app_assoc; reflexivity|]. split; [|split].
     + intros j Hj. apply in_app_or in Hj as [Hj|Hj]; [now apply Fresh|].
       specialize (Fr j Hj). destruct (gfind j acc) as [m|] eqn:Gm; [|reflexivity].
       destruct (Z.eq_dec j k) as [->|Nj]; [rewrite G1 in Fr; discriminate|].
@@ -95,6 +96,10 @@ Proof.
       * fold (sum_nat (map (hcn acc) ks)). f_equal. apply map_ext_in. intros k' Hin. unfold hcn.
         destruct (Hks k' (or_intror Hin)) as (n' & G' & _). rewrite G'.
         rewrite (Same _ _ G'); [reflexivity|]. intro X. subst. contradiction.
+    + intros j Hj k0 Hk0. apply in_app_or in Hj as [Hj|Hj].
+      * unfold idxs, H.fresh_keys in Hj. apply in_map_iff in Hj as (i & <- & _).
+        pose proof (HydrogensProofs.max_key_ge acc k0 Hk0). lia.
+      * apply (Ab j Hj). rewrite K1. apply in_or_app. now left.
 Qed.
 
 Lemma keys_inherit_attr k anchor g attr g' : H.inherit_attr k anchor g attr = Ok g' -> node_keys g' = node_keys g.
@@ -169,7 +174,7 @@ Proof.
   { intros k Hin. destruct (gfind_some_keys k g1 Hin) as [n G1]. specialize (P3 k). rewrite G1 in P3.
     destruct P3 as (n3 & G3 & (_ & _ & At & _)). exists n3. split; [assumption|]. unfold RP.no_rs.
     rewrite At by (intro X; vm_compute in X; discriminate). exact (Hrs k n G1). }
-  destruct (keys_add_h_fold_count (node_keys g1) Hnd g3 g5 Cl3 Ks3 A) as (hs & K5 & Fr5 & Len5).
+  destruct (keys_add_h_fold_count (node_keys g1) Hnd g3 g5 Cl3 Ks3 A) as (hs & K5 & Fr5 & Len5 & _).
   pose proof (keys_inherit_all ca g5 g' Hr) as Kg.
   assert (Nd3 : NoDup (node_keys g3)) by (rewrite K3; exact Hnd).
   destruct (RP.keys_add_h_fold (node_keys g1) g3 g5 Nd3) as [Nd5 _]; [intros k Hk; rewrite K3; exact Hk|exact A|].
@@ -201,6 +206,48 @@ Proof.
     clear - F2 E. induction F2 as [|j m hs l Gm F2 IH]; [reflexivity|]. cbn [map length repeat]. f_equal.
     + apply (E j m); [now left|exact Gm].
     + apply IH. intros j' m' Hj. apply E. now right.
+Qed.
+
+(** [rebuild_keys_order]: the keys of the completed graph are the original keys in their order followed by the keys
+    of the added hydrogens, each of which is ABOVE every original key (so any ordering by (fragid, key) puts the atoms
+    of a fragment, explicit hydrogens included, before the hydrogens that complete it) and is a hydrogen bonded to
+    exactly one original atom *)
+Theorem rebuild_keys_order ca g1 g' :
+  NoDup (node_keys g1) -> RP.closed_g g1 -> RP.noself_g g1 -> (forall i n, gfind i g1 = Some n -> RP.no_rs n) ->
+  H.rebuild_after_car false ca g1 = Ok g' ->
+  exists hs, node_keys g' = node_keys g1 ++ hs /\
+    (forall j, In j hs -> (forall k, In k (node_keys g1) -> k < j) /\
+       exists m k, gfind j g' = Some m /\ In k (node_keys g1) /\ nadj m = [(k, H.h_edge_attrs)] /\ H.is_H (na m) = true).
+Proof.
+  intros Hnd Hcl Hns Hrs Hr.
+  destruct (RP.rebuild_end_to_end ca g1 g' Hnd Hcl Hns Hrs Hr) as (_ & _ & C3).
+  unfold H.rebuild_after_car in Hr.
+  change HydroGen.rebuild_reset_attr with (S "hcount") in Hr. change HydroGen.rebuild_reset_value with 0 in Hr.
+  change HydroGen.rebuild_respect_hcount with false in Hr.
+  destruct (H.fill_valence false (set_all_nodes g1 (S "hcount") (VInt 0))) as [g3|] eqn:F; cbn [bind] in Hr; [|discriminate].
+  destruct (RP.phase01 g1 g3 Hnd F) as (K3 & P3).
+  destruct (H.add_explicit_hydrogens g3) as [g5|] eqn:A; cbn [bind] in Hr; [|discriminate].
+  unfold H.add_explicit_hydrogens in A. rewrite K3 in A.
+  assert (In3 : forall i n3, gfind i g3 = Some n3 -> exists n, gfind i g1 = Some n /\ RP.filled n n3).
+  { intros i n3 G. specialize (P3 i). destruct (gfind i g1) as [n|]; [|congruence].
+    destruct P3 as (n3' & G' & Fl). rewrite G in G'. inversion G'; subst. eauto. }
+  assert (Cl3 : RP.closed_g g3).
+  { intros i n3 w a G Hin. destruct (In3 i n3 G) as (n & G1 & (_ & Adj & _)). rewrite Adj in Hin.
+    pose proof (Hcl i n w a G1 Hin) as X. specialize (P3 w). destruct (gfind w g1); [|congruence].
+    destruct P3 as (? & -> & _). discriminate. }
+  assert (Ks3 : forall k, In k (node_keys g1) -> exists n3, gfind k g3 = Some n3 /\ RP.no_rs n3).
+  { intros k Hin. destruct (gfind_some_keys k g1 Hin) as [n G1]. specialize (P3 k). rewrite G1 in P3.
+    destruct P3 as (n3 & G3 & (_ & _ & At & _)). exists n3. split; [assumption|]. unfold RP.no_rs.
+    rewrite At by (intro X; vm_compute in X; discriminate). exact (Hrs k n G1). }
+  destruct (keys_add_h_fold_count (node_keys g1) Hnd g3 g5 Cl3 Ks3 A) as (hs & K5 & Fr5 & _ & Ab).
+  pose proof (keys_inherit_all ca g5 g' Hr) as Kg.
+  exists hs. split; [rewrite Kg, K5, K3; reflexivity|]. intros j Hj. split.
+  - intros k Hk. apply (Ab j Hj). rewrite K3. exact Hk.
+  - assert (G1 : gfind j g1 = None).
+    { specialize (Fr5 j Hj). specialize (P3 j). destruct (gfind j g1); [|reflexivity]. destruct P3 as (? & X & _). congruence. }
+    destruct (gfind_some_keys j g') as [m Gm]; [rewrite Kg, K5; apply in_or_app; now right|].
+    destruct (C3 j m G1 Gm) as (k & Hk & Adj & EH). exists m, k. split; [exact Gm|]. split; [|split; assumption].
+    destruct (in_dec Z.eq_dec k (node_keys g1)) as [X|X]; [exact X|]. apply gfind_none_keys in X. contradiction.
 Qed.
 
 (** * Part 2: the sampler's compute_mass is the mass loop over the completed graph *)
